@@ -28,13 +28,13 @@
 (*                      a spurious broadcast                                 *)
 (*  SharedCond          a Read that consumed nothing useful for a writer     *)
 (*                      still wakes writers, every Write wakes writers too   *)
-(*  TimerUnlocked       (CONSTANT, TRUE = the code) time.AfterFunc(d,         *)
-(*                      rwCond.Broadcast): the callback does not take the    *)
-(*                      mutex.  DEFECT: with TRUE NoLostWakeup and           *)
-(*                      TimerCovers FAIL (Read arms the timer, the deadline  *)
-(*                      passes and the timer fires before Wait() has         *)
-(*                      registered the reader: it parks with nothing left to *)
-(*                      wake it); with FALSE everything holds.               *)
+(* CONSTANT TimerUnlocked: FALSE = the code (since fix 90f21f9, defect D19:   *)
+(* the AfterFunc callback takes the mutex around Broadcast, so it cannot fall *)
+(* between a reader's broadcastAfter() and its Wait()).  TRUE = the code      *)
+(* before that fix, time.AfterFunc(d, rwCond.Broadcast): kept as a negative   *)
+(* config - NoLostWakeup and TimerCovers FAIL (Read arms the timer, the       *)
+(* deadline passes, the timer fires before Wait() has registered the reader,  *)
+(* which then parks with nothing left to wake it).                            *)
 EXTENDS Integers, Sequences, FiniteSets, TLC
 
 CONSTANTS
@@ -47,9 +47,10 @@ CONSTANTS
   T,           \* time runs 1..T
   DLs,         \* SetReadDeadline(now + d) for d \in DLs (0 = already expired); clearing (zero time) is always possible
   MaxWrites, MaxReads, MaxCtl,   \* bounds on the number of Write / Read / Close+SetReadDeadline calls
-  TimerUnlocked,  \* TRUE = as the code: the timer runs rwCond.Broadcast WITHOUT the mutex, so it can fall between
-                  \*        broadcastAfter() and rwCond.Wait() of a Read that still holds the mutex (state "armed");
-                  \* FALSE = the intended design: arming the timer and parking are one step as far as the timer can tell
+  TimerUnlocked,  \* FALSE = the code: the timer's callback takes the mutex, so for the timer a reader's arming and parking
+                  \*         are one step;
+                  \* TRUE  = deviation (the code before fix 90f21f9): the callback broadcasts WITHOUT the mutex and can fall
+                  \*         between broadcastAfter() and rwCond.Wait() of a Read that still holds the mutex (state "armed")
   DevChoices   \* set of sets of deviation flags; a behaviour picks one in Init ({{}} = the code as it is)
 
 VARIABLES
@@ -308,7 +309,7 @@ WriterMustGo == Len(buf) <= Limit \/ closed
 NoLostWakeup ==
   Quiescent => /\ \A r \in Readers : pc[r] = "park" => ~ReaderMustGo
                /\ \A w \in Writers : pc[w] = "park" => ~WriterMustGo
-\* the part of (d) that does not depend on the timer: data, close, writers (holds for the code as it is)
+\* the part of (d) that does not depend on the timer: data, close, writers (holds even with TimerUnlocked = TRUE)
 NoLostWakeupData ==
   Quiescent => /\ \A r \in Readers : pc[r] = "park" => ~(~Empty \/ closed)
                /\ \A w \in Writers : pc[w] = "park" => ~WriterMustGo
@@ -321,4 +322,5 @@ NotBothParked == Quiescent => ~(\E r \in Readers, w \in Writers : pc[r] = "park"
 \* Non-vacuity: StreamPipe_neg.cfg runs the same Spec with DevChoices = {{flag}} and ONE invariant; TLC must report it
 \* violated: CloseWithoutBroadcast, CloseSignal, ReadNoBroadcast, WriteNoBroadcast -> NoLostWakeup;
 \* DeadlineNoBroadcast, TimerNotRearmed -> NoLostWakeup and TimerCovers.
+\* TimerUnlocked = TRUE (StreamPipe_mc.cfg with that one invariant) -> NoLostWakeup and TimerCovers as well.
 =============================================================================
